@@ -471,7 +471,8 @@ def _r4(repo, L, m, ba):
         if sv is None or not srt[sv]:
             continue
         # element i vs i+1
-        nxt = [n for n in walk_shallow(lp) if isinstance(n, ast.Assign) and norm(n.value).replace(" ", "") in (f"{sv}[i+1]", f"{sv}[1+i]")]
+        ixv = lp.target.elts[0].id if isinstance(lp.target, ast.Tuple) and len(lp.target.elts) == 2 and isinstance(lp.target.elts[0], ast.Name) else "i"
+        nxt = [n for n in walk_shallow(lp) if isinstance(n, ast.Assign) and norm(n.value).replace(" ", "") in (f"{sv}[{ixv}+1]", f"{sv}[1+{ixv}]")]
         cur = lp.target.elts[1].id if isinstance(lp.target, ast.Tuple) and len(lp.target.elts) == 2 else None
         if not nxt or cur is None:
             continue
@@ -521,7 +522,7 @@ def _r5(repo, L, m, ba):
             if e.kind == "cond":
                 for t, v in cond_facts(e.node, e.val):
                     tt = norm(t).replace(" ", "")
-                    if tt == f"found_frags.get({fv}.key_tuple)" or tt.endswith(f".get({fv}.key_tuple)") or tt == f"{fv}.key_tupleinfound_frags":
+                    if tt.endswith(f".get({fv}.key_tuple)") or tt.startswith(f"{fv}.key_tuplein"):
                         unseen = not v
         adds = [c for _, c in path_calls(p, lambda c: isinstance(c.func, ast.Attribute) and c.func.attr == "add_row" and c.args and is_name(c.args[0], fv))]
         if p.status not in ("fall",):
@@ -539,7 +540,14 @@ def _r5(repo, L, m, ba):
     if seen != {"unseen", "seen"}:
         okp, whyp = False, whyp or "found / not-found branches not both present"
     L.check(okp, "R5", addm.short + ":decision", "re-added iff absent from the found map (same key as the recorder)", whyp, addm.loc(lp))
-    src = [norm(n.value) for n in walk_shallow(addm.node) if isinstance(n, ast.Assign) and is_name(n.targets[0], "found_frags")]
+    mapv = None
+    for c in walk_shallow(lp):
+        if isinstance(c, ast.Call) and isinstance(c.func, ast.Attribute) and c.func.attr == "get" and c.args and norm(c.args[0]) == f"{fv}.key_tuple":
+            mapv = c.func.value
+    if isinstance(mapv, ast.Name):
+        src = [norm(n.value) for n in walk_shallow(addm.node) if isinstance(n, ast.Assign) and is_name(n.targets[0], mapv.id)]
+    else:
+        src = [norm(mapv)] if mapv is not None else []
     L.check(src == ["self.found_fragments"], "R5", addm.short + ":map", "consults the recorder's map", f"re-add consults {src}", addm.loc())
     # the new scaffold is registered whenever it was created
     reg = [n for n in outer[0].body if isinstance(n, ast.If) and any(_mcall("add_scaffold", "self")(c) for s in n.body for c in _calls(s, lambda c: True))]
@@ -604,7 +612,8 @@ def _r6(repo, L, m, ba):
                 okc, whyc = False, f"a fused scaffold is placed in {len(adds)} output assemblies on a path ({p.status})"
     L.check(okc, "R6", split.short, "each fused scaffold added to exactly one output assembly", whyc, split.loc())
     rets = [n for n in walk_shallow(split.node) if isinstance(n, ast.Return)]
-    L.check(len(rets) == 1 and norm(rets[0].value) == "assemblies", "R6", split.short + ":return", "all output assemblies returned", "not all output assemblies are returned", split.loc())
+    holders = {norm(c.func.value) for c in repo.calls_in(split) if isinstance(c.func, ast.Attribute) and c.func.attr == "setdefault"}
+    L.check(len(rets) == 1 and norm(rets[0].value) in holders, "R6", split.short + ":return", "all output assemblies returned", "not all output assemblies are returned", split.loc())
     # CLI writes every returned assembly
     wa = repo.try_func("write_assemblies", "pretext_to_asm")
     okw = False
